@@ -273,6 +273,13 @@ fn one_rewrite(req: &Value, config: &Config, empty: &Config) -> Value {
                 rec.insert("map_tokens".into(), tokens_of(&map));
                 rec.insert("orig_map".into(), orig.unwrap_or(Value::Null));
                 rec.insert("code".into(), json!(code.clone()));
+                // the map the request supplied (inline or through the injected reader), decoded here: what
+                // the implementation says it loaded must be this one, not one kept from an earlier call
+                if let Some(m) = req.get("supplied_map").and_then(|v| v.as_str()) {
+                    if let Ok(swc::sourcemap::DecodedMap::Regular(sm)) = swc::sourcemap::decode_slice(m.as_bytes()) {
+                        rec.insert("supplied_tokens".into(), orig_tokens(&sm));
+                    }
+                }
             } else {
                 rec.insert("has_orig_map".into(), json!(orig.is_some()));
             }
